@@ -28,12 +28,21 @@ structure OutResult where
   expected : ExpVal
   deriving DecidableEq, Repr, Inhabited
 
+/-- `OutputResultEntry::check` -/
+def OutResult.check (e : OutResult) : Bool := e.expected.check e.output
+
+/-- `OutputResultEntry::is_checked` -/
+def OutResult.isChecked (e : OutResult) : Bool := e.expected != .x
+
 /-- `DataRow` -/
 structure DataRow where
   inputs : List InEntry
   outputs : List OutResult
   line : Nat
   deriving DecidableEq, Repr, Inhabited
+
+/-- `DataRow::failing_outputs` -/
+def DataRow.failingOutputs (r : DataRow) : List OutResult := r.outputs.filter (fun e => !e.check)
 
 /-- `OutputEntry` as returned by a driver: it carries a whole `Signal` -/
 abbrev OutEntry := Signal × OutVal
@@ -124,27 +133,34 @@ def defaultFor (tc : TestCase) (i : EIdx) : Res IterErr InEntry :=
 /-- `generate_default_input_entries` -/
 def defaultInputs (tc : TestCase) : Res IterErr (List InEntry) := mapRes (defaultFor tc) tc.inIdx
 
+/-- one round of the first loop of `build_output_indices`: the output index of an expected entry,
+paired with its signal index -/
+def oidxFor (tc : TestCase) (outs : List OutEntry) (i : EIdx) : Res IterErr (OIdx × Nat) :=
+  match tc.signals[i.sig]? with
+  | none => .panic "index out of bounds: signals"
+  | some s =>
+    match s.typ with
+    | .virt e => .ok (OIdx.virt e, i.sig)
+    | _ =>
+      match posOf (fun (o : OutEntry) => o.1 == s) outs with
+      | some n => .ok (OIdx.output n, i.sig)
+      | none => .ok (OIdx.none, i.sig)
+
+/-- the name of a read output that the driver's first answer does not supply -/
+def missingFor (tc : TestCase) (found : List Nat) (r : Nat) : Res IterErr (Option String) :=
+  if found.contains r then .ok none
+  else match tc.signals[r]? with
+    | none => .panic "index out of bounds: signals"
+    | some s => .ok (some s.name)
+
 /-- `build_output_indices`: the index list, or the names of the read outputs the driver does not supply -/
 def buildOutIdx (tc : TestCase) (outs : List OutEntry) : Res IterErr (List OIdx) :=
-  match mapRes (ε := IterErr) (fun (i : EIdx) =>
-    match tc.signals[i.sig]? with
-    | none => .panic "index out of bounds: signals"
-    | some s =>
-      match s.typ with
-      | .virt e => .ok (OIdx.virt e, i.sig)
-      | _ =>
-        match posOf (fun (o : OutEntry) => o.1 == s) outs with
-        | some n => .ok (OIdx.output n, i.sig)
-        | none => .ok (OIdx.none, i.sig)) tc.expIdx with
+  match mapRes (oidxFor tc outs) tc.expIdx with
   | .err e => .err e
   | .panic s => .panic s
   | .ok pairs =>
     let found := (pairs.filter (fun p => match p.1 with | .output _ => true | _ => false)).map (·.2)
-    match mapRes (ε := IterErr) (fun (r : Nat) =>
-      if found.contains r then .ok none
-      else match tc.signals[r]? with
-        | none => .panic "index out of bounds: signals"
-        | some s => .ok (some s.name)) tc.reads with
+    match mapRes (missingFor tc found) tc.reads with
     | .err e => .err e
     | .panic s => .panic s
     | .ok ms =>
